@@ -60,7 +60,26 @@ fn check_mapper(rng: &mut Rng, res: &mut CaseResult) {
     let cfg = GenCfg::tiny();
     // palettes with duplicates, ids >= 256, sparse starts
     let mut pal = gen::gen_palette(rng, &cfg, false);
-    if rng.chance(1, 2) {
+    if rng.chance(1, 8) {
+        // the palettes people actually make: ramps. The identity gray ramp (what converting a grayscale sprite gives),
+        // shorter / reversed / tinted ramps and single-channel ramps; the +-1 near misses below then are colours that
+        // share one or two channels with an entry without being in the palette
+        pal.clear();
+        let n = *rng.pick(&[256u32, 256, 255, 128, 64, 16, 257]);
+        let style = rng.below(5);
+        for i in 0..n {
+            let v = (if n <= 256 { i * 255 / (n - 1).max(1) } else { i.min(255) }) as u8;
+            let v = if n == 256 || n == 257 { i.min(255) as u8 } else { v };
+            let rgba = match style {
+                0 | 1 => [v, v, v, 255],
+                2 => [255 - v, 255 - v, 255 - v, 255],
+                3 => [v, 0, 0, 255],
+                _ => [v, v, v ^ 1, 255],
+            };
+            pal.insert(i, PalEntryM { rgba, name: None });
+        }
+        res.count("ramp_palettes", 1);
+    } else if rng.chance(1, 2) {
         // inject duplicates: below/below, below/above, above/above 256
         let keys: Vec<u32> = pal.keys().cloned().collect();
         for _ in 0..rng.range(1, 6) {
@@ -151,7 +170,12 @@ fn check_mapper(rng: &mut Rng, res: &mut CaseResult) {
         }
     }
     // to_indexed_image: dimensions + row-major order
-    let (w, h) = if rng.chance(1, 20) { if rng.chance(1, 2) { (rng.range(256, 400) as u32, 1) } else { (2, rng.range(256, 400) as u32) } } else { (rng.range(1, 12) as u32, rng.range(1, 12) as u32) };
+    // now and then an image of 2^16 .. 2^17 pixels (rarely 2^20) whose pixel count is no multiple of 2, 4 or 8: whatever
+    // way a conversion splits its work, the last pixels are still one index per pixel
+    let big = rng.chance(1, 160);
+    let (w, h) = if big {
+        if rng.chance(1, 12) { (rng.range(1000, 1100) as u32 | 1, rng.range(1000, 1100) as u32 | 1) } else { (rng.range(255, 300) as u32, rng.range(257, 300) as u32) }
+    } else if rng.chance(1, 20) { if rng.chance(1, 2) { (rng.range(256, 400) as u32, 1) } else { (2, rng.range(256, 400) as u32) } } else { (rng.range(1, 12) as u32, rng.range(1, 12) as u32) };
     let mut img = RgbaImage::new(w, h);
     let lead = rng.below(4);
     for y in 0..h {
@@ -176,6 +200,9 @@ fn check_mapper(rng: &mut Rng, res: &mut CaseResult) {
     };
     let ((ow, oh), data) = to_indexed_image(img.clone(), &mapper);
     res.count("indexed_images", 1);
+    if big {
+        res.count("indexed_images_of_65536_pixels_or_more", 1);
+    }
     if (ow, oh) != (w, h) || data.len() != (w * h) as usize {
         res.violations.push(Violation::new("to_indexed|dimensions", format!("to_indexed_image of {}x{} returned dims {}x{} and {} indices", w, h, ow, oh, data.len())));
         return;
